@@ -183,10 +183,20 @@ SeqOperandOK(c, in) ==
 \*       "f32_f64"   = float32 factors, float64 operand with half-integer entries.
 \* The mode product is linear in the operand: numerators give the numerator of the result, a complex operand
 \* a + ib gives ModeDot(a) + i ModeDot(b); the result comes back in NumPy's promoted type.
+CMixNames == <<"f32_first", "int_first", "cplx_later">>
 OMixNames == <<"int_float", "real_cplx", "f32_f64">>
 OMixOut(c) == IF c.omix = "real_cplx" THEN "complex128" ELSE "float64"
 OMixDen(c) == IF c.omix \in {"int_float", "f32_f64"} THEN 2 ELSE 1
 
+\* GRADED spectra: the last inner component of a slice (when it has at least two) is scaled by 2^-GradeExp, so that the
+\* slice X = A + 2^-GradeExp B has singular values spanning ~1e8 while every non-zero one must still be kept at
+\* threshold 0 / max_rank None.  A = leading components, B = last component (both exact integer matrices); the
+\* reconstruction is compared with A at the usual tolerance and (recon - A) * 2^GradeExp with B (ReconFine).
+GradeExp == 27
+MatMulRange(L, R, lo, hi) == Build(<<L.shape[1], R.shape[2]>>, LAMBDA p : FSum(hi - lo + 1, LAMBDA k : E2(L, p[1], lo + k - 2) * E2(R, lo + k - 2, p[2])))
+GradedA(c, L, R) == IF c.grade = 0 \/ L.shape[2] < 2 THEN MatMul(L, R) ELSE MatMulRange(L, R, 1, L.shape[2] - 1)
+GradedB(c, L, R) == IF c.grade = 0 \/ L.shape[2] < 2 THEN Build(<<L.shape[1], R.shape[2]>>, LAMBDA p : 0)
+                    ELSE MatMulRange(L, R, L.shape[2], L.shape[2])
 SeqSet == {<<"N", "M", "N">>, <<"N", "A", "N">>, <<"N", "N">>, <<"F", "N">>, <<"N", "F", "N">>,
            <<"M", "N", "A", "N">>, <<"N", "M", "M", "N">>, <<"A", "N", "F", "M", "N">>}
 TShapes == UNION {[1..n -> 1..TMaxDim] : n \in 2..TMaxOrder}
@@ -194,7 +204,7 @@ TRankVecs(n) == {r \in [1..n -> 1..TMaxRank] : ProdSeq(r) <= TMaxCore}
 Modes0(s) == 0..(Len(s) - 1)
 BaseCfg == [op |-> "none", kind |-> "cp", shape |-> <<>>, rank |-> <<>>, family |-> "generic", how |-> "function",
             mode |-> 0, operand |-> "none", odim |-> 0, keep |-> FALSE, copy |-> FALSE, npad |-> 0, padb |-> FALSE,
-            lens |-> <<>>, maxrank |-> 0, thr |-> 0, listin |-> FALSE, mag |-> 0, omix |-> "none", steps |-> <<>>]
+            lens |-> <<>>, maxrank |-> 0, thr |-> 0, listin |-> FALSE, mag |-> 0, omix |-> "none", steps |-> <<>>, grade |-> 0, negmode |-> FALSE, cmix |-> "none"]
 HasWideOther(s, m) == \E k \in 1..Len(s) : k # m + 1 /\ s[k] >= 2
 P2Cfgs(R) == {<<js, K>> : js \in {j \in [1..2 -> 1..3] : \A i \in 1..2 : j[i] >= R}, K \in 1..3}
 
@@ -253,8 +263,8 @@ TCfgs(root) ==
             \* or smaller -- but never below a slice's rank, so that every non-zero singular value is kept
             LET I == s[1]  K == s[2] IN
             {[BaseCfg EXCEPT !.op = "svd_compress", !.kind = "slices", !.shape = s, !.rank = <<cap>>, !.lens = js,
-                             !.family = "lowrank", !.maxrank = mr, !.thr = t] :
-                 cap \in 1..K, js \in [1..I -> 1..(IF I = 2 THEN 4 ELSE 3)], mr \in 0..(K + 1), t \in {0, 1}}
+                             !.family = "lowrank", !.maxrank = mr, !.thr = t, !.grade = g] :
+                 cap \in 1..K, js \in [1..I -> 1..(IF I = 2 THEN 4 ELSE 3)], mr \in 0..(K + 1), t \in {0, 1}, g \in {0, GradeExp}}
       [] root.op = "svd_roundtrip" ->
             {[BaseCfg EXCEPT !.op = "svd_roundtrip", !.kind = "p2", !.shape = <<2, x[2]>>, !.rank = <<r>>, !.lens = x[1],
                              !.family = "fullrank", !.maxrank = mr, !.thr = t] :
@@ -277,12 +287,18 @@ RankLimit(K, maxrank) == IF maxrank = 0 THEN K ELSE Min2(K, maxrank)
 KeepsAll(c) == \A i \in 1..Len(c.lens) : SliceRho(c, i) <= RankLimit(c.shape[2], c.maxrank)
 TFactorShapes(c) ==
     IF c.kind = "slices" THEN [i \in 1..Len(c.lens) |-> <<c.lens[i], SliceRho(c, i)>>] ELSE
-    FactorShapes([op |-> c.kind, shape |-> c.shape, rank |-> c.rank, bad |-> "none", at |-> 0, dl |-> 0, modes |-> <<>>])
+    FactorShapes([op |-> c.kind, shape |-> c.shape, rank |-> c.rank, bad |-> "none", at |-> 0, dl |-> 0, modes |-> <<>>, tr |-> FALSE])
 TExpand(c) ==
     c @@ [fshapes |-> TFactorShapes(c),
           coreshape |-> IF c.kind = "tucker" THEN c.rank ELSE <<>>,
           pshapes |-> IF c.kind = "p2" THEN [i \in 1..Len(c.lens) |-> <<c.lens[i], c.rank[1]>>] ELSE <<>>,
-          rshapes |-> IF c.kind = "slices" THEN [i \in 1..Len(c.lens) |-> <<SliceRho(c, i), c.shape[2]>>] ELSE <<>>]
+          rshapes |-> IF c.kind = "slices" THEN [i \in 1..Len(c.lens) |-> <<SliceRho(c, i), c.shape[2]>>] ELSE <<>>,
+          \* pad_tt_rank on cores of DIFFERENT storage types: zero padding must leave every core in its own type
+          cdtypes |-> IF c.cmix = "none" THEN <<>>
+                      ELSE [k \in 1..Len(TFactorShapes(c)) |->
+                               CASE c.cmix = "f32_first" -> IF k = 1 THEN "float32" ELSE "float64"
+                                 [] c.cmix = "int_first" -> IF k = 1 THEN "int64" ELSE "float64"
+                                 [] OTHER                -> IF k = 1 THEN "float64" ELSE "complex128"]]
 
 \* ---- does the (integer) input have the degenerate feature its family promises?
 AllCols(in, P(_, _)) == \A k \in 1..Len(in.fs) : \A r \in 0..(in.fs[k].shape[2] - 1) : P(k, r)
@@ -335,6 +351,10 @@ TCfgOK(c) ==
               \* the slices have the promised shapes, and their rank bound fits under the number of kept singular triplets
               /\ KeepsAll(c)
               /\ \A i \in 1..Len(c.lens) : MatMul(in.fs[i], in.rs[i]).shape = <<c.lens[i], c.shape[2]>>
+              \* leading part + last component = the ungraded product (the split used by the graded family is exact)
+              /\ \A i \in 1..Len(c.lens) :
+                    LET g == [c EXCEPT !.grade = GradeExp] IN
+                    AddT(GradedA(g, in.fs[i], in.rs[i]), GradedB(g, in.fs[i], in.rs[i])) = MatMul(in.fs[i], in.rs[i])
               \* the property's interesting corner exists in the domain: a first slice shorter than n_cols ...
               /\ (c.lens[1] < c.shape[2] /\ c.lens[2] > c.lens[1] => SliceRho(c, 1) <= c.lens[1])
          [] c.op = "cp_flip_sign" ->
@@ -387,6 +407,7 @@ TInit == cfg \in TRoots
 \* products (threshold with an explicit max_rank; three slices with the wide max_rank range) are left to the 2-slice family
 InSvdDomain(c) == c.op = "svd_compress" =>
                     /\ KeepsAll(c)
+                    /\ (c.grade # 0 => c.thr = 0 /\ c.maxrank = 0 /\ c.rank[1] >= 2)
                     /\ (c.thr = 1 => c.maxrank = 0)
                     /\ (Len(c.lens) = 3 => c.thr = 0 /\ c.maxrank \in {0, c.rank[1]})
 \* MAGNITUDE twins.  One factor column (one whole core for TT / TR / TT-matrix) of the integer input is scaled by
@@ -404,6 +425,11 @@ TNext == "shape" \in DOMAIN cfg /\ "family" \notin DOMAIN cfg
          /\ LET base == {x \in TCfgs(cfg) : Kept(x) /\ InSvdDomain(x)} IN
             cfg' \in {TExpand(c) : c \in base}
                      \cup {TExpand(MagTwin(c)) : c \in {x \in base : MagOp(x) /\ (Checksum(x) \div Thin) % 3 = 0}}
+                     \* a NEGATIVE spelling of the mode (mode - order) means the same mode
+                     \cup {TExpand([c EXCEPT !.negmode = TRUE]) : c \in {x \in base : x.op \in {"cp_flip_sign", "cp_mode_dot", "tucker_mode_dot"}
+                                                                                   /\ (Checksum(x) \div Thin) % 3 = 2}}
+                     \cup {TExpand([c EXCEPT !.cmix = CMixNames[((Checksum(c) \div Thin) % 3) + 1]]) :
+                               c \in {x \in base : x.op = "pad_tt_rank" /\ Len(TFactorShapes(x)) >= 2 /\ (Checksum(x) \div Thin) % 2 = 0}}
                      \cup {TExpand(OMixTwin(c)) : c \in {x \in base : x.op \in {"cp_mode_dot", "tucker_mode_dot"}
                                                                        /\ (Checksum(x) \div Thin) % 3 = 1}}
 TSpec == TInit /\ [][TNext]_cfg
